@@ -118,3 +118,9 @@ def _v25(repo, mod):
     fn = repo.func(M, "__should_skip_by_visibility")
     m = find_stmt(fn, lambda s: isinstance(s, ast.Match))
     return replace_node(mod, m, "visibility = config.configuration.element_visibility\n    if visibility == ElementVisibility.ALL:\n        return False\n    if visibility == ElementVisibility.PROTECTED:\n        return __is_private(name) or (owner is not None and __is_name_mangled(name, owner))\n    return __is_protected(name) or __is_private(name)")
+
+
+@variant("C27", "lambda-matched-by-the-assignment-line", "pynguin.analyses.module", "C27.lambda", "multi-line lambda assignments lose their name (seed C27-f)")
+def _v50(repo, mod):
+    from sa.selftest.harness import text_edit
+    return text_edit(mod, "and node.value.lineno == lambda_lineno", "and node.lineno == lambda_lineno")
